@@ -80,6 +80,33 @@ def run_jobs(jobs, nproc=None):
     with ctx.Pool(min(nproc, len(jobs)), maxtasksperchild=8) as pool:
         return pool.map(_run_job, jobs, chunksize=1)
 
+def translation_validate(ck, harness, ll, entry, params, cases, models=('zlib_identity',)):
+    """executor vs the real build on concrete inputs: the same harness is run natively (ASan/UBSan build of /repo's
+    current sources) and in the executor with the same recorded inputs; the REACH trace and the way the run ends must
+    agree.  A disagreement is a machinery failure (exit 2), never a finding."""
+    import tempfile
+    # plain (unsanitised) native build: ASan turns a huge operator new into a hard error where the real runtime throws bad_alloc
+    spec = ck.native_spec.get(harness, {})
+    key = harness + ':plain'
+    if key not in ck.natives: ck.natives[key] = driver.build_native(harness, extra_src=spec.get('extra_src', ()), libs=spec.get('libs', ('-lz',)), sanitize=False)
+    exe = ck.natives[key]
+    bad = 0
+    for vals in cases:
+        path = os.path.join(driver.BUILD, 'tv_%s_%d.txt' % (entry, os.getpid()))
+        driver.write_replay(path, [{'bits': 8, 'value': v} for v in vals])
+        rc, out, err = driver.run_native(exe, entry, path, params)
+        nat_reach = [l.split(' ', 1)[1] for l in out.splitlines() if l.startswith('REACH ')]
+        nat_end = 'returned' if rc == 0 else ('sanitizer/other rc=%d' % rc)
+        r = driver.run_harness(ll, entry, params=params, env_models=[MODEL_SETS[m] for m in models], allow_throw=lambda e, t: False, concrete=list(vals))
+        sym_reach = sorted(r.reached)
+        sym_end = 'returned' if (not r.bugs and not r.inconclusive) else 'bug/undecided'
+        ck.tv_cases += 1
+        if sorted(nat_reach) != sym_reach or nat_end.split('/')[0] != sym_end.split('/')[0]:
+            bad += 1
+            ck.machinery.append('TRANSLATION-VALIDATION mismatch %s%s inputs=%s: native %s %s, executor %s %s %s' % (entry, params, bytes(vals).hex()[:80], nat_end, nat_reach, sym_end, sym_reach,
+                                                                                                                  [b['msg'][:120] for b in r.bugs] + [b['msg'][:120] for b in r.inconclusive]))
+    return bad
+
 class Check:
     def __init__(s, prop, level='model_checking'):
         s.prop = prop; s.level = level; s.t0 = time.time()
